@@ -47,9 +47,10 @@ fn duration_from_nanos(n: u128) -> Duration {
 }
 
 macro_rules! with_counters {
-    ($b:expr, $c:expr, $I:ty) => {{
+    ($b:expr, $c:expr, $I:ty, $late:expr) => {{
         let mut b = $b;
-        for (kind, value) in pairs($c, "bc") {
+        // `bclate=1`: the constant counters are set after the per-input ones instead of before them
+        for (kind, value) in pairs($c, "bc").into_iter().filter(|_| ($c.u64("bclate", 0) != 0) == $late) {
             b = match kind {
                 0 => b.counter(BytesCount::new(value)),
                 1 => b.counter(CharsCount::new(value)),
@@ -78,8 +79,9 @@ macro_rules! with_input_counters {
 
 fn drive<I: In, O: Out<I>>(b: Bencher, entry: u64, c: &Cfg) {
     let b = b.with_inputs(gen::<I>);
-    let b = with_counters!(b, c, I);
+    let b = with_counters!(b, c, I, false);
     let b = with_input_counters!(b, c, I);
+    let b = with_counters!(b, c, I, true);
     match entry {
         2 => b.bench_values(call_value::<I, O>),
         3 => b.bench_local_values(call_value::<I, O>),
@@ -91,7 +93,7 @@ fn drive<I: In, O: Out<I>>(b: Bencher, entry: u64, c: &Cfg) {
 
 fn drive_u<O: Out<u64>>(b: Bencher, entry: u64, c: &Cfg) {
     let b = b.with_inputs(gen::<u64>);
-    let b = with_counters!(b, c, u64);
+    let b = with_counters!(b, c, u64, false);
     let mut b = with_input_counters!(b, c, u64);
     for kind in c.list("countas") {
         b = match kind {
@@ -101,6 +103,7 @@ fn drive_u<O: Out<u64>>(b: Bencher, entry: u64, c: &Cfg) {
             _ => b.count_inputs_as::<ItemsCount>(),
         };
     }
+    let b = with_counters!(b, c, u64, true);
     match entry {
         2 => b.bench_values(call_value::<u64, O>),
         3 => b.bench_local_values(call_value::<u64, O>),
@@ -111,7 +114,8 @@ fn drive_u<O: Out<u64>>(b: Bencher, entry: u64, c: &Cfg) {
 }
 
 fn drive_unit<O: Out<InZ>>(b: Bencher, entry: u64, c: &Cfg) {
-    let b = with_counters!(b, c, InZ);
+    let b = with_counters!(b, c, InZ, false);
+    let b = with_counters!(b, c, InZ, true);
     match entry {
         0 => b.bench(call_unit::<O>),
         1 => b.bench_local(call_unit::<O>),
